@@ -229,7 +229,23 @@ func (w *world) init(s Step) *Diff {
 	w.ep["b"] = &endpoint{name: "b", conn: cb}
 	// cleartext prefix: defines the digests
 	tr := map[string]*refcodec.Transcript{"ab": {}, "ba": {}}
-	preData := func(d string, i int) []byte { return payload("pre"+d, [2]int{i, 0}, 5+3*i, w.v.Salt) }
+	// cleartext prefix frames of every shape: ordinary, all empty, large, empty-then-data
+	preData := func(d string, i int) []byte {
+		n := 5 + 3*i
+		switch w.v.SizePlan % 4 {
+		case 1:
+			n = 0
+		case 2:
+			n = 300 + 211*i
+		case 3:
+			if i == 0 {
+				n = 0
+			} else {
+				n = 7
+			}
+		}
+		return payload("pre"+d, [2]int{i, 0}, n, w.v.Salt)
+	}
 	if !imported {
 		w.ep["a"].st = stream.NewStream(ca)
 		w.ep["b"].st = stream.NewStream(cb)
